@@ -372,9 +372,12 @@ mod verif_c08_table {
         );
     }
 
-    // (No quick-tier stand-in for (b): with any symbolic word in the table the 512-fold unwinding of
-    // `all()` costs ~0.35 s per iteration whatever the shape of the table; measured 183 s with a
-    // single symbolic word in one of five concrete slots, 262 s with a symbolic slot index.)
+    // (No quick-tier stand-in for (b): as soon as ONE word of the table is symbolic the 512-fold
+    // unwinding of `all()` costs ~0.35 s per iteration wherever that word is; measured 162 s with a
+    // symbolic word in slot 511 only, 183 s with one in one of five concrete slots, 262 s with a
+    // symbolic slot index, 181 s for the general harness above. So the general harness is as cheap
+    // as any stand-in, and the quick tier has only the `true_if_all_zero` half: an `all` -> `any`
+    // mutant is seen by the thorough tier only.)
 
     // new / zero / is_empty agree: zero() of any table gives an empty table.
     //@ obligation C08 C08.PageTable_zero.then_is_empty tier=thorough
